@@ -58,7 +58,12 @@ def build(seed):
         ops.append({"op": "rm", "path": lost})  # the packing list still has to carry every path ever recorded
     if rnd.random() < 0.2:
         ops.append({"op": "orphan", "hist": "", "other_name": True})  # flatten reads the source history, it never repairs it
-    ops.append({"op": "flatten", "at": ""})
+    fl = {"op": "flatten", "at": ""}
+    if rnd.random() < 0.3:
+        fl["n"] = True  # (flatten never writes directory records, with or without -n)
+    if rnd.random() < 0.2:
+        fl["i"] = [rnd.choice(["*.bak", "late1.txt", "*.txt", "s"])]  # patterns given to flatten are recorded, they drop no record
+    ops.append(fl)
     ops.append({"op": "verifypl", "at": ""})
     allpats = [x for o in ops for x in o.get("i", [])]
     files = [p for p in sorted(fs.files) if not mutate.hidden(p, allpats)]  # an ignored file may change freely
